@@ -117,7 +117,7 @@ def mem_history(rec, w):
 def _applicable(cls, model, ev):
     if model is None:  # the count file was removed: nothing further is defined
         return False
-    if ev in ("X", "D"):
+    if ev in ("X", "D", "K"):
         return cls != "mem"
     if ev in ("C", "R"):
         if cls == "mem":
@@ -204,6 +204,12 @@ class Machine:
             tmpf = Path(str(self.path) + ".new")
             tmpf.write_text(f"{self.model}\n")
             os.replace(tmpf, self.path)
+        elif ev == "K":
+            # create_new(): the documented way to (re)start the sequence - afterwards the file holds 0 and counting starts over
+            e, _ = self._try(self.inst.create_new)
+            if e is not None:
+                return ("create_new/raised", repr(e), None)
+            self.model = 0
         elif ev == "D":
             # environment: the count file is removed - every entry point reports the missing file, also on a used instance
             self.path.unlink()
@@ -591,11 +597,12 @@ def reject(rec, cls, w, tmp):
                         continue
                     rec.violation(f"C19.reject/{_clsname(cls)}/accepted{wtag}", case, v, "ValueError")
         # the two extreme valid counts are accepted and continued from
-        for val in (0, mod - 1):
+        for val, term in ((0, "\n"), (mod - 1, "\n"), (mod - 1, "\r\n"), (min(7, mod - 1), "\r\n"), (mod - 1, "")):
             for op in OPS:
-                path.write_text(f"{val}\n")
+                # written as octets: a count file that came through a text-mode transfer / another platform ends in CR LF
+                path.write_bytes(f"{val}{term}".encode())
                 inst = make(mode, w0)
-                case = {"kind": "accept", "cls": cls, "w": w, "content": f"{val}\n", "op": op, "mode": mode}
+                case = {"kind": "accept", "cls": cls, "w": w, "content": f"{val}{term}", "op": op, "mode": mode}
                 rec.case(True, ops=1)
                 try:
                     v = call(inst, op)
@@ -659,7 +666,7 @@ def shards(tier):
         for first in set_ev:
             items.append({"kind": "stateless", "cls": "file", "w": w, "first": first, "events": set_ev, "depth": 5 if q else 6})
     # environment events: the file replaced by one with the same count (X), the file removed (D, ends the history)
-    env_ev = list("NGCRXD")
+    env_ev = list("NGCRXDK")
     for w in (1, 2):
         for first in env_ev:
             items.append({"kind": "stateless", "cls": "file", "w": w, "first": first, "events": env_ev, "depth": 5 if q else 6})
